@@ -90,9 +90,11 @@ pub struct BSheet {
     pub items: Vec<BItem>,
     /// emit the optional blocks before BrtBeginSheetData (views, fmt info, col infos)
     pub preamble: bool,
+    /// the byte after the 24-bit iStyleRef of every Cell structure: bit 0 fPhShow (show phonetic), 7 reserved bits
+    pub cell_flags: u8,
 }
 impl BSheet {
-    pub fn new(name: &str, items: Vec<BItem>) -> BSheet { BSheet { name: name.into(), state: 0, dir: "worksheets", items, preamble: true } }
+    pub fn new(name: &str, items: Vec<BItem>) -> BSheet { BSheet { name: name.into(), state: 0, dir: "worksheets", items, preamble: true, cell_flags: 0 } }
 }
 
 #[derive(Clone, Debug, Default)]
@@ -142,7 +144,14 @@ pub fn sheet_bin(s: &BSheet) -> Vec<u8> {
         match it {
             BItem::Cell { row, col, style, val } => {
                 if cur != Some(*row) { o.extend(row_hdr(*row)); cur = Some(*row); }
-                o.extend(cell_record(*col, *style, val));
+                let mut r = cell_record(*col, *style, val);
+                if s.cell_flags != 0 {
+                    // the Cell structure starts right after the record id and length prefix (1-2 + 1-4 bytes)
+                    let idl = if r[0] & 0x80 != 0 { 2 } else { 1 };
+                    let mut k = idl; while r[k] & 0x80 != 0 { k += 1; } k += 1;
+                    r[k + 7] = s.cell_flags;
+                }
+                o.extend(r);
             }
             BItem::Raw(t, d) => o.extend(rec(*t, d)),
         }
